@@ -171,7 +171,32 @@ func streamCli() {
 				if rng.Intn(2) == 0 || !fc {
 					args = append(args, fmt.Sprintf("--generate-changed=%v", fc))
 				}
-				args = append(args, root)
+				// the directory argument in one of the ways a user may spell it: as is, with a trailing slash, relative to the
+				// working directory, or through a symbolic link and back ("<link>/../<dir>", resolved by the kernel, not textually)
+				dirArg := root
+				cmdDir := ""
+				switch rng.Intn(6) {
+				case 0:
+					dirArg = root + "/"
+				case 1:
+					dirArg, cmdDir = "./"+filepath.Base(root), filepath.Dir(root)
+				case 2:
+					dirArg, cmdDir = ".", root
+				case 3, 4:
+					// <root>-far/deep is a directory elsewhere and <root>-links/lnk points at it; <root>-far/<base> is a link to the real
+					// directory.  "<root>-links/lnk/../<base>" therefore reaches root when the kernel resolves it, whereas a textual
+					// clean-up of "lnk/.." would end in <root>-links/<base>, which does not exist
+					far := filepath.Join(root+"-far", "deep")
+					links := root + "-links"
+					os.MkdirAll(far, 0755)
+					os.MkdirAll(links, 0755)
+					os.Remove(filepath.Join(links, "lnk"))
+					os.Remove(filepath.Join(root+"-far", filepath.Base(root)))
+					if os.Symlink(far, filepath.Join(links, "lnk")) == nil && os.Symlink(root, filepath.Join(root+"-far", filepath.Base(root))) == nil {
+						dirArg = filepath.Join(links, "lnk") + "/../" + filepath.Base(root)
+					}
+				}
+				args = append(args, dirArg)
 				before := map[string][]byte{}
 				filepath.Walk(root, func(p string, info os.FileInfo, err error) error {
 					if err == nil && !info.IsDir() {
@@ -182,7 +207,16 @@ func streamCli() {
 				})
 				tick()
 				cmd := exec.Command(bin, args...)
-				cmd.Env = env
+				cmd.Dir = cmdDir
+				// what the environment may look like: no usable scratch directory, few processors
+				runEnv := append([]string{}, env...)
+				if rng.Intn(3) == 0 {
+					runEnv = append(runEnv, "TMPDIR=/nonexistent/scratch")
+				}
+				if k := rng.Intn(8); k >= 1 && k <= 5 {
+					runEnv = append(runEnv, fmt.Sprintf("GOMAXPROCS=%d", k))
+				}
+				cmd.Env = runEnv
 				inCoq := "None"
 				if ans.in != nil {
 					cmd.Stdin = strings.NewReader(*ans.in)
@@ -285,6 +319,7 @@ func streamCli() {
 				p := filepath.Join(root, ents[i].pemPath(i))
 				os.MkdirAll(filepath.Dir(p), 0755)
 				os.WriteFile(p, data, 0644)
+				os.Chmod(p, []os.FileMode{0644, 0600, 0664, 0666, 0640}[rng.Intn(5)]) // whatever umask the user's tools ran under
 				ops = append(ops, fmt.Sprintf("U (OpReplaceUser %d %s)", i, term))
 				forceAll = rng.Intn(2) == 0
 			default:
@@ -296,6 +331,8 @@ func streamCli() {
 		}
 		os.RemoveAll(root)
 		os.RemoveAll(ext)
+		os.RemoveAll(root + "-links")
+		os.RemoveAll(root + "-far")
 		dirLoc = time.UTC
 		fmt.Fprintf(out, "CASE cli-%d-%d %d steps :: %s\n", seed, h, len(ops), strings.Join(ops, "; "))
 		fmt.Fprintf(out, "COQ ([%s], [%s])\n", strings.Join(ops, "; "), strings.Join(obs, "; "))
